@@ -87,10 +87,12 @@ def run (j : Json) : R Json := do
     let nodes ← (← fRatss j "nodes").mapM toP3
     let faces ← fNatss j "faces"
     let cells ← cellsOf j
-    let o := geom3 ⟨nodes, faces, cells⟩
+    let g3 : Grid3 := ⟨nodes, faces, cells⟩
+    let o := geom3 g3
     pure (obj [("face_normals", ofList ofP3 o.faceNormals), ("face_area2", ofRats o.faceArea2),
                ("face_centers", ofList ofP3 o.faceCenters), ("cell_volumes", ofRats o.cellVolumes),
-               ("cell_centers", ofList ofP3 o.cellCenters), ("min_tet", ofRat o.minTet)])
+               ("cell_centers", ofList ofP3 o.cellCenters), ("min_tet", ofRat o.minTet),
+               ("hyp_ok", ofList Json.bool (g3.cells.map (fun c => cellHypB (g3.cell c))))])
   | _ => throw s!"unknown op {op}"
 
 def main : IO Unit := runPure run
